@@ -220,14 +220,18 @@ CLAIMED = {
         "Coq proof of the generic key level (aliases interchangeable for any schema and dictionary; the nine synonym tables well formed; every written key read) and of the text round trips of dictionary values (quantities, equations) + round-trip correspondence of physical content through dict / JSON text / files / multi-file layouts / aliases / omitted defaults",
         "Theorems (Props/C12.v, closed under the global context): for any schema (list of synonym lists) and any dictionary, renaming a key "
         "into another key that is a synonym of exactly the same fields changes neither acceptance nor the value read for any field; the "
-        "synonym tables of the twelve readers are pairwise disjoint, every key emitted by a writer is the primary key of a field of its "
+        "key tables of the thirteen readers (twelve *_from_dict and load_rdtrajectory) are pairwise disjoint, every key emitted by a writer is the primary key of a field of its "
         "reader, every key a reader looks up is a primary key, every accepted field is looked up and every field is written "
         "(computation over tables that harness/translate_schemas.py re-extracts from /repo's source with ast on every run, fail-closed: "
         "a change of a synonym table, of a reader's look-ups or of a writer's keys re-opens these obligations); for every well-formed schema a "
         "dictionary giving each present field under its primary key is accepted and every field reads back exactly what was written "
         "(key-level round trip, generic); every quantity string and every equation string a writer produces reads back to "
-        "the same value / unit / stoichiometry (C18, C19). PARTIAL AS A THEOREM: that the objects rebuilt by the real readers carry the "
-        "original's physical content is not a theorem - no model of all nine object readers/writers was built - it is established by the "
+        "the same value / unit / stoichiometry (C18, C19). Object level: two kinds of objects are modelled in full - units systems and species (Model/ObjDict.v: "
+        "species_to_dict with format_unitvar_for_save, species_from_dict with process_unitvar_input and retrive_units_system_from_dict) - "
+        "with round-trip theorems (same label, flags and units system; every coefficient and density bit-identical in value and equivalent "
+        "in unit), and the modelled writer and reader are compared dictionary for dictionary with the code's (written form, alias "
+        "variants, omitted defaults, inherit / default units). PARTIAL AS A THEOREM for the other kinds (reaction, network, spaces, "
+        "system, script, trajectory): that the objects rebuilt by their readers carry the original's physical content is established by the "
         "correspondence: random networks, spaces (grid; graph with per-node and per-edge units), systems, scripts and Euler trajectories "
         "with independent units at every level go through to_dict -> from_dict, JSON text, save/load in a scratch directory, to_dict twice "
         "(stability), up to 6 of the alias substitution sites per object (~5000 sites per quick run), a multi-file system layout "
